@@ -141,6 +141,9 @@ def leading_zero_cases() -> t.List[str]:
     return ["S-1-05-18", "S-1-5-018", "S-1-5-21-0000000001-2", "S-1-000-0"]
 
 
+_api: t.Dict[str, t.Any] = {}
+
+
 def case_near(name: str, s: str):
     """the string is offered three times, through the descriptor API and through sid_to_bytes: a rejection must be repeatable"""
     from dpapi_ng._security_descriptor import sid_to_bytes
@@ -153,7 +156,24 @@ def case_near(name: str, s: str):
 
         return ProtectionDescriptor.unpack(cms.protection_descriptor(cms.OID_SID, "SID", x)).get_target_sd()
 
-    for attempt, fn in enumerate((_sd, sid_to_bytes, _sd, _via_unpack)):
+    def _via_protect(x: str, flavour: str = "sync") -> bytes:
+        # the string as the application hands it to the public protect API (root key in the cache, so nothing else is needed)
+        import dpapi_ng
+
+        from env import seams
+
+        if "rk" not in _api:
+            d_ = seams.Drbg(("C08api",))
+            _api["rk"] = seams.make_root(d_, "SHA256")
+            _api["cache"] = seams.make_cache(_api["rk"])
+        with seams.clock(134270280000000777):
+            if flavour == "sync":
+                return bytes(dpapi_ng.ncrypt_protect_secret(b"x", x, root_key_identifier=_api["rk"].rkid, cache=_api["cache"]))
+            from mc import vloop
+
+            return bytes(vloop.run(dpapi_ng.async_ncrypt_protect_secret(b"x", x, root_key_identifier=_api["rk"].rkid, cache=_api["cache"])))
+
+    for attempt, fn in enumerate((_sd, sid_to_bytes, _sd, _via_unpack, _via_protect, lambda x: _via_protect(x, "async"))):
         try:
             sd = fn(s)
         except ValueError:
